@@ -337,6 +337,23 @@ def oracle_reports(case, result):
                         yield 'C04', n, f'{r["kind"]} lists state {h} twice'
                     seen_here.add(h)
                     rep_states[h] = s
+        # states are grouped under the MDS they belong to
+        def mds_of(dh):
+            seen = 0
+            cur = tb.t['descrs'].get(str(dh))
+            while cur is not None and cur[1] is not None and seen < 50:
+                cur = tb.t['descrs'].get(str(cur[1]))
+                seen += 1
+            return cur[0] if cur is not None else None
+        for r in reps:
+            if r['kind'] in ('UNPARSABLE', 'DescriptionModificationReport', 'WaveformStream'):
+                continue
+            for part in r['parts']:
+                for s_ in part['states']:
+                    dh = s_[1] if len(s_) == 8 else s_[0]
+                    want_mds = mds_of(dh)
+                    if part.get('mds') is not None and want_mds is not None and part['mds'] != want_mds:
+                        yield 'C04', n, f'state {s_[0]} is reported under MDS {part["mds"]} but belongs to {want_mds}'
         for h, x in list(changed_states.items()) + list(changed_c.items()):
             if h not in rep_states:
                 yield 'C04', n, f'state {h} changed in the commit but is in no episodic report'
